@@ -71,6 +71,14 @@ func (c *Ctx) Logf(format string, a ...any) {
 	c.logLine(fmt.Sprintf(format, a...))
 }
 
+// Note adds a line to the trace only (never to the canonical log or its hash): details that differ
+// from execution to execution, such as goroutine ids.
+func (c *Ctx) Note(format string, a ...any) {
+	if c.Trace {
+		c.Lines = append(c.Lines, "    # "+fmt.Sprintf(format, a...))
+	}
+}
+
 // LogUnordered records a line whose position relative to the other unordered
 // lines of the same simulator step is not defined (e.g. callbacks fired while
 // the implementation iterates over a Go map). The batch is sorted before it
